@@ -691,6 +691,7 @@ func rulePipePublish(c *Ctx, r *R) {
 		scan = append(scan, helpers...)
 		// helpers the function is built from (finished(ctx), …): a read there is judged by the arms of that helper itself
 		ownBodies := map[*ssa.Function][]*ssa.BasicBlock{}
+		frameChain := map[*ssa.Function][]*ssa.Call{}
 		for _, fr := range deepFrames(fn, 2) {
 			if fr.f == fn {
 				continue
@@ -704,7 +705,7 @@ func rulePipePublish(c *Ctx, r *R) {
 			if dup {
 				continue
 			}
-			for _, op := range chanOpsOf(fr.f) {
+			for _, op := range fr.chanOps() {
 				for _, a := range op.arms {
 					if !a.send && fieldOfChan(a.ch) == "senderDone" && a.body != nil {
 						ownBodies[fr.f] = append(ownBodies[fr.f], a.body)
@@ -712,91 +713,94 @@ func rulePipePublish(c *Ctx, r *R) {
 				}
 			}
 			scan = append(scan, fr.f)
+			frameChain[fr.f] = fr.chain
 		}
 		for _, sf := range scan {
 			sf := sf
-			instrs(sf, func(b *ssa.BasicBlock, i int, in ssa.Instruction) {
-				ld, ok := in.(ssa.Value)
-				if !ok || !errSlotRead(ld) {
-					return
-				}
-				nreads++
-				_, judgedLocally := ownBodies[sf]
-				dom := sf != fn && !judgedLocally // inside a helper that is only reachable from a senderDone arm
-				for _, bb := range bodies {
-					if sf == fn && bb.Dominates(b) {
-						dom = true
+			withChainFlags(frameChain[sf], func() {
+				instrs(sf, func(b *ssa.BasicBlock, i int, in ssa.Instruction) {
+					ld, ok := in.(ssa.Value)
+					if !ok || !errSlotRead(ld) {
+						return
 					}
-				}
-				for _, bb := range ownBodies[sf] {
-					if bb.Dominates(b) {
-						dom = true
-					}
-				}
-				if !dom && sf == fn && len(bodies) > 0 {
-					// not inside the arm, but every path to the read has passed through one (the arms leave through a shared exit
-					// that tells them apart by a flag: if received { return item, nil }; err := *s.senderErr): typestate
-					first := map[ssa.Instruction]bool{}
+					nreads++
+					_, judgedLocally := ownBodies[sf]
+					dom := sf != fn && !judgedLocally // inside a helper that is only reachable from a senderDone arm
 					for _, bb := range bodies {
-						if len(bb.Instrs) > 0 {
-							first[bb.Instrs[0]] = true
+						if sf == fn && bb.Dominates(b) {
+							dom = true
 						}
 					}
-					pf := &PF{N: 2}
-					pf.Instr = func(_ *ssa.Function, x ssa.Instruction, q int) (StateSet, bool) {
-						if first[x] {
-							return ss(1), true
+					for _, bb := range ownBodies[sf] {
+						if bb.Dominates(b) {
+							dom = true
 						}
-						return 0, false
 					}
-					seenRead, allObserved := false, true
-					pf.Visit = func(_ *ssa.Function, x ssa.Instruction, before StateSet) {
-						if x == in {
-							seenRead = true
-							if before != ss(1) {
-								allObserved = false
+					if !dom && sf == fn && len(bodies) > 0 {
+						// not inside the arm, but every path to the read has passed through one (the arms leave through a shared exit
+						// that tells them apart by a flag: if received { return item, nil }; err := *s.senderErr): typestate
+						first := map[ssa.Instruction]bool{}
+						for _, bb := range bodies {
+							if len(bb.Instrs) > 0 {
+								first[bb.Instrs[0]] = true
 							}
 						}
+						pf := &PF{N: 2}
+						pf.Instr = func(_ *ssa.Function, x ssa.Instruction, q int) (StateSet, bool) {
+							if first[x] {
+								return ss(1), true
+							}
+							return 0, false
+						}
+						seenRead, allObserved := false, true
+						pf.Visit = func(_ *ssa.Function, x ssa.Instruction, before StateSet) {
+							if x == in {
+								seenRead = true
+								if before != ss(1) {
+									allObserved = false
+								}
+							}
+						}
+						pf.Exits(fn, ss(0))
+						dom = seenRead && allObserved
 					}
-					pf.Exits(fn, ss(0))
-					dom = seenRead && allObserved
-				}
-				key := name + "|read-senderErr#" + itoa(nreads)
-				if !r.ok(dom, key, ld.Pos(), "*senderErr is read outside an arm that observed senderDone closed (data race with Close, and a stale value)") {
-					return
-				}
-				// what is read is what is reported: every return in blocks dominated by this read that carries a
-				// non-constant error carries this value; and a return of it exists
-				found := false
-				if ld.Referrers() != nil {
-					for _, ref := range *ld.Referrers() {
-						if ret, ok := ref.(*ssa.Return); ok && returnedValue(ret, len(ret.Results)-1) == ld {
-							found = true
-						}
+					key := name + "|read-senderErr#" + itoa(nreads)
+					if !r.ok(dom, key, ld.Pos(), "*senderErr is read outside an arm that observed senderDone closed (data race with Close, and a stale value)") {
+						return
 					}
-				}
-				// … or reaches a return through a small helper that passes it on (errOrEnd(*s.senderErr): the error itself
-				// when there is one, End otherwise)
-				if !found {
-					want := valueProv(ld, provEnv{}).String()
-					instrs(sf, func(b2 *ssa.BasicBlock, j int, in2 ssa.Instruction) {
-						ret, ok := in2.(*ssa.Return)
-						if !ok || len(ret.Results) == 0 {
-							return
-						}
-						e := symOf(returnedValue(ret, len(ret.Results)-1), provEnv{})
-						nodes := []*sx{e}
-						if e.op == "phi" {
-							nodes = append(nodes, e.args...)
-						}
-						for _, nd := range nodes {
-							if nd.op == "leaf" && nd.s == want && e.inl != "" {
+					// what is read is what is reported: every return in blocks dominated by this read that carries a
+					// non-constant error carries this value; and a return of it exists
+					found := false
+					if ld.Referrers() != nil {
+						for _, ref := range *ld.Referrers() {
+							if ret, ok := ref.(*ssa.Return); ok && returnedValue(ret, len(ret.Results)-1) == ld {
 								found = true
 							}
 						}
-					})
-				}
-				r.ok(found, name+"|return-senderErr#"+itoa(nreads), ld.Pos(), "the error read from *senderErr is not the error operand of a return: the sender's close error would be replaced or dropped")
+					}
+					// … or reaches a return through a small helper that passes it on (errOrEnd(*s.senderErr): the error itself
+					// when there is one, End otherwise)
+					if !found {
+						want := valueProv(ld, provEnv{}).String()
+						instrs(sf, func(b2 *ssa.BasicBlock, j int, in2 ssa.Instruction) {
+							ret, ok := in2.(*ssa.Return)
+							if !ok || len(ret.Results) == 0 {
+								return
+							}
+							e := symOf(returnedValue(ret, len(ret.Results)-1), provEnv{})
+							nodes := []*sx{e}
+							if e.op == "phi" {
+								nodes = append(nodes, e.args...)
+							}
+							for _, nd := range nodes {
+								if nd.op == "leaf" && nd.s == want && e.inl != "" {
+									found = true
+								}
+							}
+						})
+					}
+					r.ok(found, name+"|return-senderErr#"+itoa(nreads), ld.Pos(), "the error read from *senderErr is not the error operand of a return: the sender's close error would be replaced or dropped")
+				})
 			})
 		}
 		if nreads == 0 {
@@ -962,7 +966,7 @@ func rulePipeWhoMayClose(c *Ctx, r *R) {
 		sends := 0
 		good := true
 		for _, fr := range deepFrames(fn, 2) {
-			for _, op := range chanOpsOf(fr.f) {
+			for _, op := range fr.chanOps() {
 				for idx, a := range op.arms {
 					if !a.send {
 						continue
@@ -1170,7 +1174,7 @@ var _ = late(func() {
 			}
 			n := 0
 			for _, fr := range deepFrames(fn, 2) {
-				for _, op := range chanOpsOf(fr.f) {
+				for _, op := range fr.chanOps() {
 					if op.kind != "select" {
 						continue
 					}
